@@ -652,6 +652,121 @@ def op_subs_real(rng, cur, obs, spec, chosen=None, all_variants=False):
     return step
 
 
+def op_subs_mixed(rng, cur, obs, spec):
+    """ONE simultaneous substitution mixing renamings with values: a batch input and/or a real input is renamed while
+    another real input gets a value that mentions the OLD name of a renamed input (a Tensor over the old batch name,
+    an affine expression in a variable called like the renamed real input), the NEW name, or neither.  Simultaneous
+    semantics: names inside the values are free and are not touched by the renaming.  The pairs are given as kwargs
+    or as Subs(g, pairs) in a shuffled order; the result is also compared with the hand-staged sequence through
+    fresh intermediate names."""
+    if obs.g is None or len(obs.reals) < 1:
+        return None
+    rnames = [k for k, _ in obs.reals]
+    bnames = list(obs.batch)
+    y = rng.choice(rnames)                                   # the input that receives a value
+    others = [k for k in rnames if k != y]
+    ren_b = rng.choice(bnames) if bnames and rng.random() < 0.7 else None
+    ren_r = rng.choice(others) if others and rng.random() < 0.7 else None
+    if ren_b is None and ren_r is None:
+        return None
+    new_b = [n for n in BATCH_NAMES + ["m", "n"] if n not in obs.batch][0] if ren_b else None
+    new_r = [n for n in REAL_NAMES + ["q", "r"] if n not in rnames][0] if ren_r else None
+    yshape = spec.reals[y]
+    kinds = []
+    if ren_b:
+        kinds += ["tensor-old-batch", "tensor-old-batch", "tensor-new-batch", "tensor-both"]
+    if ren_r:
+        kinds += ["affine-old-real", "affine-old-real"]
+        if spec.reals[ren_r] == yshape:
+            kinds += ["affine-new-real"]
+    kinds += ["plain"]
+    kind = rng.choice(kinds)
+    batch = {k: n for k, n in spec.batch.items() if k != ren_b}
+    if ren_b:
+        batch[new_b] = spec.batch[ren_b]
+    reals = OrderedDict()
+    for k, sh in spec.reals.items():
+        if k == y:
+            continue
+        reals[new_r if k == ren_r else k] = sh
+    nb = spec.batch[ren_b] if ren_b else None
+    if kind.startswith("tensor") or kind == "plain":
+        deps = {"tensor-old-batch": [ren_b], "tensor-new-batch": [new_b], "tensor-both": [ren_b, new_b]}.get(kind, [])
+        data = dy_array(rng, tuple(nb for _ in deps) + tuple(yshape))
+        value = Tensor(data, OrderedDict((k, Bint[nb]) for k in deps))
+        for k in deps:
+            batch[k] = nb
+
+        def yval(p, X):
+            return np.asarray(data[tuple(p[k] for k in deps)], dtype=np.float64)
+        vdesc = dict(deps=deps, data=data.tolist())
+    else:
+        vname = ren_r if kind == "affine-old-real" else new_r
+        a_, b_ = rng.choice([-2, -1, 0.5, 1, 2]), rng.choice([-1, 0, 0.5, 1])
+        V = Variable(vname, dom(yshape))
+        value = V * a_ + b_
+        if vname in reals and reals[vname] != yshape:
+            return None
+        reals[vname] = yshape
+
+        def yval(p, X):
+            return a_ * np.asarray(X[vname], dtype=np.float64).reshape(yshape) + b_
+        vdesc = dict(var=vname, a=a_, b=b_)
+    if sum(numel(sh) for sh in reals.values()) > 9:
+        return None
+
+    def at(p):
+        q = {k: p[k] for k in spec.batch if k != ren_b}
+        if ren_b:
+            q[ren_b] = p[new_b]
+        f = spec.at(q)
+
+        def g(X):
+            Xa = {k: np.array([float(v) for v in X[k]]).reshape(reals[k]) for k in reals}
+            full = {}
+            for k in spec.reals:
+                if k == y:
+                    full[k] = [F(float(v)) for v in np.asarray(yval(p, Xa)).reshape(-1)]
+                elif k == ren_r:
+                    full[k] = X[new_r]
+                else:
+                    full[k] = X[k]
+            return f(full)
+        return g
+    pairs = [(y, value)]
+    if ren_b:
+        pairs.append((ren_b, Variable(new_b, Bint[nb]) if rng.random() < 0.5 else new_b))
+    if ren_r:
+        pairs.append((ren_r, Variable(new_r, dom(spec.reals[ren_r])) if rng.random() < 0.5 else new_r))
+    rng.shuffle(pairs)
+    how = rng.choice(["call", "subs"])
+
+    def run():
+        if how == "call":
+            return cur(**dict(pairs))
+        return Subs(cur, tuple(pairs))
+
+    def staged():
+        # rename through fresh intermediate names, substitute the value, then rename to the final names
+        r = cur
+        tmp = {}
+        if ren_b:
+            tmp[ren_b] = "tmpb__"
+        if ren_r:
+            tmp[ren_r] = "tmpr__"
+        r = r(**tmp)
+        r = r(**{y: value})
+        fin = {}
+        if ren_b:
+            fin["tmpb__"] = new_b
+        if ren_r:
+            fin["tmpr__"] = new_r
+        return r(**fin)
+    return dict(run=run, staged=staged, spec=Fn(batch, reals, at), model=None, exact=True, rank=obs.rank,
+                desc=dict(op="subs_mixed", kind=kind, how=how, order=[k for k, _ in pairs], value_for=y, value=vdesc,
+                          rename_batch=[ren_b, new_b], rename_real=[ren_r, new_r]))
+
+
 def op_subs_int(rng, cur, obs, spec):
     if not obs.batch:
         return None
@@ -1035,7 +1150,7 @@ def op_plate(rng, cur, obs, spec, focus=False, red=None):
                 exact=True, rank=obs.rank * len(pts), desc=dict(op="plate", reduced=red))
 
 
-OPS = [("add", op_add, 4), ("add_tensor", op_add_tensor, 2), ("subs_real", op_subs_real, 4), ("subs_int", op_subs_int, 2), ("rename", op_rename, 2),
+OPS = [("add", op_add, 4), ("add_tensor", op_add_tensor, 2), ("subs_mixed", op_subs_mixed, 3), ("subs_real", op_subs_real, 4), ("subs_int", op_subs_int, 2), ("rename", op_rename, 2),
        ("align", op_align, 2), ("affine", op_affine, 4), ("cat", op_cat, 2), ("plate", op_plate, 2)]
 
 
@@ -1298,6 +1413,16 @@ def run_case(env, case_seed, tier, counts, stream="clean", sibling=False):
                 counts(f"declined:{name}:{e}")
                 break
             counts("op:" + name)
+            if name == "subs_mixed":
+                counts("subs_mixed:" + step["desc"]["kind"])
+                try:
+                    sres = step["staged"]()
+                    check_step(env, rng, sres, step, step_exact, counts)
+                    counts("subs_mixed:staged-agrees")
+                except Declined as e:
+                    counts(f"subs_mixed:staged-declined:{e}")
+                except DECLINE_ERRORS as e:
+                    counts(f"subs_mixed:staged-declined:{type(e).__name__}")
             if name == "affine":
                 counts("affine:selfref" if step["desc"]["selfref"] else "affine:no-selfref")
                 counts("affine:crossref" if step["desc"]["crossref"] else "affine:no-crossref")
